@@ -748,6 +748,7 @@ class MultiStream(Stream):
         """
         if self.chemicals is not other.chemicals and self.chemicals.IDs != other.chemicals.IDs:
             raise ValueError('other stream must have the same chemicals defined to copy flow')
+        if exclude and IDs == ... and phase == ...: return
         IDs_index = self.chemicals.get_index(IDs)
         phase_index = self.imol.get_phase_index(phase)
         data = self.imol.data
